@@ -459,4 +459,76 @@ theorem index_pg (p : Bool) (v len : Int) : indexConst true p v len = if v ≥ 0
   cases p <;> simp [indexConst] <;> split <;> omega
 
 
+/-! ### PostgreSQL slice = Python slice: both are a window `[p, q)` with the same canonical bounds -/
+
+theorem drop_take_canon (xs : List α) (p c : Nat) :
+    (xs.drop p).take c = (xs.drop (min p xs.length)).take (min (p + c) xs.length - min p xs.length) := by
+  by_cases hp : xs.length ≤ p
+  · have e : min p xs.length = xs.length := by omega
+    rw [e, List.drop_eq_nil_of_le hp, List.drop_eq_nil_of_le (Nat.le_refl _)]; simp
+  · have e : min p xs.length = p := by omega
+    rw [e, List.take_eq_take_iff]
+    simp only [List.length_drop]; omega
+
+/-- the elements at positions `[p, q)` (0-based, `p ≥ 0`) -/
+def win (xs : List α) (p q : Int) : List α := (xs.drop p.toNat).take (q - p).toNat
+
+theorem win_canon (xs : List α) (p q : Int) (hp : 0 ≤ p) :
+    win xs p q = win xs (min p xs.length) (min (max p q) xs.length) := by
+  unfold win
+  rw [drop_take_canon xs p.toNat]
+  have e1 : min p.toNat xs.length = (min p (xs.length : Int)).toNat := by omega
+  have e2 : min (p.toNat + (q - p).toNat) xs.length - min p.toNat xs.length
+      = (min (max p q) (xs.length : Int) - min p (xs.length : Int)).toNat := by omega
+  rw [e2, e1]
+
+theorem win_congr (xs : List α) (p q p' q' : Int) (hp : 0 ≤ p) (hp' : 0 ≤ p')
+    (h1 : min p (xs.length : Int) = min p' xs.length) (h2 : min (max p q) (xs.length : Int) = min (max p' q') xs.length) :
+    win xs p q = win xs p' q' := by
+  rw [win_canon xs p q hp, win_canon xs p' q' hp', h1, h2]
+
+/-- lower bounds: PostgreSQL `max(l,1) - 1` vs Python `adjIdx` -/
+def pgLo (n : Int) : Option Int → Int | none => 0 | some a => max (indexConst true true a n) 1 - 1
+def pgHi (n : Int) : Option Int → Int | none => n | some b => min (indexConst true false b n) n
+
+theorem pgLo_nonneg (n : Int) (a : Option Int) : 0 ≤ pgLo n a := by
+  cases a <;> simp [pgLo] <;> omega
+
+theorem loOf_nonneg (n : Int) (hn : 0 ≤ n) (a : Option Int) : 0 ≤ loOf n a := by
+  cases a with
+  | none => simp [loOf]
+  | some a => simp only [loOf, adjIdx]; split <;> split <;> omega
+
+theorem pg_lo_eq (n : Int) (hn : 0 ≤ n) (a : Option Int) : min (pgLo n a) n = min (loOf n a) n := by
+  cases a with
+  | none => simp [pgLo, loOf]
+  | some a =>
+    simp only [pgLo, loOf, index_pg, adjIdx, if_true]
+    by_cases ha : a ≥ 0
+    · have h0 : ¬ a < 0 := by omega
+      simp only [ha, h0, if_true, if_false]; split <;> omega
+    · have h0 : a < 0 := by omega
+      simp only [ha, h0, if_true, if_false]; split <;> omega
+
+theorem pg_hi_eq (n : Int) (hn : 0 ≤ n) (a b : Option Int) :
+    min (max (pgLo n a) (pgHi n b)) n = min (max (loOf n a) (hiOf n b)) n := by
+  have hlo := pg_lo_eq n hn a
+  have h1 := pgLo_nonneg n a
+  have h2 := loOf_nonneg n hn a
+  cases b with
+  | none => simp only [pgHi, hiOf]; omega
+  | some b =>
+    simp only [pgHi, hiOf, index_pg, adjIdx, Bool.false_eq_true, if_false]
+    by_cases hb : b ≥ 0
+    · have h0 : ¬ b < 0 := by omega
+      simp only [hb, h0, if_true, if_false]; split <;> omega
+    · have h0 : b < 0 := by omega
+      simp only [hb, h0, if_true, if_false]; split <;> omega
+
+theorem pgSlice_win (xs : List α) (a b : Option Int) : pgSlice xs a b = win xs (pgLo xs.length a) (pgHi xs.length b) := by
+  cases a <;> cases b <;> simp only [pgSlice, pgArraySlice, win, pgLo, pgHi, Option.map] <;> congr 2 <;> omega
+
+theorem pySlice_win (xs : List α) (a b : Option Int) : pySlice xs a b = win xs (loOf xs.length a) (hiOf xs.length b) := by
+  rw [pySlice_eq]; rfl
+
 end PonyVerif.Model.JsonOps
